@@ -21,7 +21,11 @@ fn mk_list(items: Vec<Value<f32>>, tail: Option<Value<f32>>) -> Value<f32> {
     acc
 }
 
-const SYMS: &[&str] = &["a", "b", "foo", "x1", "list->vector", "set!", "+", "-", "...", "<=?", "a.b", "hello-world", "q", "quote", "quote", "lambda", "define"];
+const SYMS: &[&str] = &[
+    "a", "b", "foo", "x1", "list->vector", "set!", "+", "-", "...", "<=?", "a.b", "hello-world", "q", "quote", "quote", "lambda", "define",
+    // peculiar identifiers (sign or dot first) with digits and signs further on; e and exponents look-alikes
+    "->v2", "-x1", "+a1", "--2", "...1", "-a-1", "..2", "e1", "a1e5", "x+1", "-e5", "λ2", "if", "else", "=>", "_", "!x9", "$1", "a/b", "-",
+];
 const CHARS: &[char] = &[
     'a', 'Z', '0', '(', ')', ';', '"', '\\', '#', ' ', '|', '\'', 'λ', '.', '~', 'x', 't', '\u{0}', '\u{7}', '\u{8}', '\u{1b}', '\u{7f}', '\t', '\n',
 ];
@@ -323,7 +327,7 @@ pub fn run(ctx: &Ctx) {
     ctx.random("trees", cases, 200, tree_case);
 
     // the display procedure itself, through the built binary
-    let batches = ctx.tier.pick(300, 3_000);
+    let batches = ctx.tier.pick(600, 5_000);
     ctx.random("display-procedure", batches, 40, display_procedure_case);
 
     // bulk reals
